@@ -356,6 +356,29 @@ def iteration_deciders(fa, h, body, T):
     return out
 
 
+def return_alternatives(fa):
+    """the alternative values a function can return, each with the block that builds it:
+    [(term, block)].  `return x` where x was assigned on several ways (an if/else expression, a
+    spliced closure of map_or_else, ...) is split into those ways; joins are flattened."""
+    alts = []
+    for d in fa.body.defs.get(0, []):
+        kind, bi, si, place, payload = d
+        if bi not in fa.succ or place["p"]:
+            continue
+        if kind == "assign" and payload["k"] == "use":
+            gv = guarded_values(fa, payload["op"])
+            alts += [(t_, db if db is not None else bi) for t_, db in gv] or [(fa.origin_rvalue(payload, bi, si), bi)]
+        elif kind == "assign":
+            alts.append((fa.origin_rvalue(payload, bi, si), bi))
+        else:
+            alts.append((fa.origin_call(bi, payload), bi))
+    flat = []
+    for t_, db in alts:
+        for m in (t_[1] if t_[0] == "join" else (t_,)):
+            flat.append((m, db))
+    return flat
+
+
 def switch_edges_on(fa, pred):
     """switch terminators whose discriminant origin satisfies pred(term):
     yields (bb, term, {value: target}, otherwise)"""
